@@ -38,6 +38,10 @@ def search_escape(_payload):
     alphabet = ['a', ' ', '&', '<', '>', '"', "'", ';', '#', 'amp', 'lt;', '&amp;', '&lt;', 'é', '&#38;', '&nbsp;',
                 # XML-legal characters that are not "printable" / are blank in the Unicode sense
                 '\u00a0', '\u2003', '\u00ad', '\u200b', '\u2028', '\u0085', '\U0001f600']
+    for text in ('&' * 9, '"' * 9, 'A&B&C&D&E&F&G&H&I&J', '<a href="x">' * 4, 'layer "1 & 2"', "it's <b>&\"q\"</b> " * 3):
+        r = round_trip(text)
+        if r:
+            return {'found': True, 'input': text, 'observed': r[0], 'expected': r[1]}
     for n in (1, 2, 3):
         for combo in itertools.product(alphabet, repeat=n):
             text = ''.join(combo)
@@ -83,4 +87,12 @@ def search_hms(_payload):
                 return {'found': True, 'input': (arg, ms), 'observed': got, 'expected': exp}
             if ms and got != tu.format_hms(arg / 1000.0):
                 return {'found': True, 'input': (arg, ms), 'observed': got, 'expected': tu.format_hms(arg / 1000.0)}
+    # a millisecond input gives the same text as the equivalent seconds -- also at the rounding steps (binary64 neighbours of x.5 s)
+    import math
+    for k in list(range(10, 70)) + [3599, 3600, 4099, 86399]:
+        for base in ((k + 0.5) * 1000.0, k * 1000.0 + 499.5, (k + 0.0045) * 1.0):
+            for arg in (base, math.nextafter(base, 0.0), math.nextafter(base, math.inf), math.nextafter(math.nextafter(base, 0.0), 0.0)):
+                a, b = tu.format_hms(arg, True), tu.format_hms(arg / 1000.0)
+                if a != b:
+                    return {'found': True, 'input': (arg, True), 'observed': a, 'expected': f'{b} (= format_hms({arg / 1000.0!r}))'}
     return {'found': False}
